@@ -85,7 +85,56 @@ func genC17(c *Ctx) {
 		c17Smp(c)
 		c17Keys(c)
 	}
+	c17Boundaries(c)
 	c17KeyFile(c, n)
+}
+
+// the largest values the wire format can express: TLV lengths at and just below 65535 (a 16-bit length plus the
+// 4-byte TLV header must not wrap), data fields and texts around 64 kB
+func c17Boundaries(c *Ctx) {
+	pat := func(n int) []byte {
+		b := make([]byte, n)
+		for i := range b {
+			b[i] = byte(1 + i%7)
+		}
+		return b
+	}
+	lens := []int{65531, 65532, 65535}
+	if c.Thorough() {
+		lens = []int{65531, 65532, 65533, 65534, 65535}
+	}
+	for _, l := range lens {
+		c.Count("tlv-length:max-" + fmt.Sprint(65535-l))
+		v := pat(l)
+		copy(v, []byte{0, 1, 0, 0, 0, 1, 0, 0}) // bytes that would parse as further TLVs (type 1, length 0)
+		ts := []otr3.VerifTLV{{Type: 8, Length: uint16(l), Value: v}, {Type: 0, Length: 3, Value: []byte{9, 9, 9}}}
+		msg := []byte("max")
+		ps := otr3.VerifPlainSer(msg, ts)
+		c.AddCase(33, "plainDataMsg.serialize", B(ps), B(msg), tlvsVal(ts))
+		out := guard(func() Val {
+			m, bt, ok := otr3.VerifPlainDeser(ps)
+			if !ok {
+				return VNone{}
+			}
+			if !bytes.Equal(m, msg) || len(bt) != len(ts) || bt[0].Length != ts[0].Length || !bytes.Equal(bt[0].Value, ts[0].Value) || bt[1].Type != 0 {
+				c.Violate("roundtrip-mismatch", fmt.Sprintf("plainDataMsg,tlv-length=%d", l), "a maximal TLV does not survive serialize/deserialize", map[string]string{"tlv_length": fmt.Sprint(l), "parsed_tlvs": fmt.Sprint(len(bt))})
+			}
+			return L(B(m), tlvsVal(bt))
+		})
+		if _, isNone := out.(VNone); isNone {
+			c.Violate("roundtrip-mismatch", fmt.Sprintf("plainDataMsg,tlv-length=%d", l), "a maximal TLV does not parse back", map[string]string{"tlv_length": fmt.Sprint(l)})
+		}
+		c.AddCase(35, "plainDataMsg.deserialize", out, B(ps))
+		ser := otr3.VerifTLVSer(ts[0])
+		c.AddCase(31, "tlv.serialize", B(ser), tlvVal(ts[0]))
+	}
+	for _, l := range []int{65536} {
+		d := pat(l)
+		c.AddCase(4, "AppendData", B(otr3.AppendData([]byte{7}, d)), B([]byte{7}), B(d))
+		in := otr3.AppendData(nil, d)
+		r, v, ok := otr3.ExtractData(append(in, 5, 6))
+		c.AddCase(14, "ExtractData", restB(r, v, ok), B(append(in, 5, 6)))
+	}
 }
 
 func hex(b []byte) string { return fmt.Sprintf("%x", b) }
